@@ -273,6 +273,16 @@ Record reply := mkReply {
 }.
 
 (* getClientID: option 61, else (absent or zero-length, fix ec7166b) chaddr; the empty byte string is the N 1 *)
+(* the fixed BOOTP header of a reply as EncodeDHCP4(p, BootReply, ...) leaves it in the request buffer:
+   op htype hlen hops, secs, flags (cleared), ciaddr (kept from the request for OFFER/ACK: the call passes the
+   zero Addr; set to 0.0.0.0 for NAK), siaddr, giaddr (zeroed), chaddr padding + sname + file zeroed, cookie *)
+Record bootp_hdr := mkHdr {
+  h_op : N; h_htype : N; h_hlen : N; h_hops : N; h_secs : N; h_flags : N;
+  h_ciaddr : ip; h_siaddr : ip; h_giaddr : ip; h_zeroed : bool; h_cookie : N
+}.
+Definition reply_header (t : rtype) (m : dmsg) : bootp_hdr :=
+  mkHdr 2 1 6 0 0 0 (match t with RNak => 0 | _ => m_ciaddr m end) 0 0 true 1669485411.
+
 Definition getcid (m : dmsg) : cid :=
   match m_cid m with
   | Some k => if k =? 1 then 281474976710656 + m_chaddr m else k
@@ -575,15 +585,23 @@ Fixpoint run_saving (c : cfg) (s : dstate) (saved : list lease) (h : list ((ip -
   end.
 
 (* saveConfig writes the acknowledged leases; loadByteArray restores those whose address lies in the
-   file's net1 and whose client id is not empty, all pointing at net1 (nobody is captured in a new session) *)
-Definition restore (cL : cfg) (saved : list lease) : list lease :=
-  map (fun l => mkLease (l_cid l) SAllocated (l_mac l) (l_ip l) (l_offer l) (l_xid l) false (l_exp l))
+   file's net1 and whose client id is not empty — each as an entry of its own —; a restored lease points
+   at net1, or at net2 when its MAC is captured in the session AT LOAD TIME and its address lies in net2.
+   The restored table is a function of (file, session capture state, configuration). *)
+Definition restore (cL : cfg) (se : sess) (saved : list lease) : list lease :=
+  map (fun l => mkLease (l_cid l) SAllocated (l_mac l) (l_ip l) (l_offer l) (l_xid l)
+                        (sess_captured se (l_mac l)
+                         && match l_ip l with Some x => n_contains cL true x | None => false end)
+                        (l_exp l))
       (filter (fun l => lstate_eqb (l_state l) SAllocated
                         && match l_ip l with Some x => n_contains cL false x | None => false end
                         && negb (l_cid l =? 1)) saved).
 
+(* the session a handler is constructed on: NewSession plus the MACs captured before (Config).New *)
+Definition sess_pre (c : cfg) (pre : list mac) : sess := fold_left sess_capture pre (sess_init c).
+
 (* (Config).New of configuration cB on that file: configuration in force and initial state *)
-Definition restart_state (file : subcfg) (cB : cfg) (saved : list lease) : dstate :=
+Definition restart_state (file : subcfg) (cB : cfg) (pre : list mac) (saved : list lease) : dstate :=
   let cL := loaded_cfg file cB in
-  if sub_changed (wanted cB) file then init cL
-  else mkSt (restore cL saved) (n_first cL false) (n_first cL true) (sess_init cL).
+  if sub_changed (wanted cB) file then mkSt [] (n_first cL false) (n_first cL true) (sess_pre cL pre)
+  else mkSt (restore cL (sess_pre cL pre) saved) (n_first cL false) (n_first cL true) (sess_pre cL pre).
